@@ -404,3 +404,11 @@ func gen(rt *rapid.T) c10kCase {
 func TestC10KauriContributions(t *testing.T) {
 	common.Check(t, "C10", "TestC10KauriContributions", 6000, 150000, gen, prop)
 }
+
+// TestC09RaceKauriRounds (property C09, "goroutine interleavings ... tree aggregation"): the same histories - several
+// aggregation rounds for blocks of rising view with contributions and timer expiries in between - under the race detector.
+// A tree node starts one goroutine per round (the wait timer); what that goroutine reads must not be written by the next
+// round meanwhile. The verdict is the race detector's.
+func TestC09RaceKauriRounds(t *testing.T) {
+	common.Check(t, "C09", "TestC09RaceKauriRounds", 400, 8000, gen, prop)
+}
